@@ -1533,11 +1533,12 @@ PROPS['C02'] = dict(
 )
 
 PROPS['C19'] = dict(
-    module='FlacModel.Props.C19',
+    module='FlacModel.Props.C19b',
     theorems=['Flac.C19.subframe_bits_le_verbatim', 'Flac.C19.pick_le_fixed', 'Flac.C19.constant_block_small_partial',
               'Flac.C19.constant_block_small', 'Flac.C19.fixed_zero_candidate_bits', 'Flac.C19.zero_residual_bits',
               'Flac.C19.zero_partition_is_constant', 'Flac.C19.all_zero_is_constant_subframe',
-              'Flac.C19.header_bits_le', 'Flac.C19.frame_bytes_bound'],
+              'Flac.C19.header_bits_le', 'Flac.C19.frame_bytes_bound',
+              'Flac.C19.encDiff_const', 'Flac.C19.argminFirst_second', 'Flac.C19.constant_block_fixed_zero'],
     components=[EncFrame('size')],
     rule='every generated frame of the real encoder is measured against 16 + ceil(sum over channels of (41 + n x depth_i))/8 + 2 bytes '
          '(depth+1 for one channel of a stereo pair); constant blocks against 18 + 12 bytes per channel; shapes include full-scale noise, '
@@ -1547,8 +1548,10 @@ PROPS['C19'] = dict(
           'the FIXED candidate plus a header; constant_block_small: a FIXED candidate whose residual consists of zero-width partitions only (what write_residuals records for an all-zero residual: '
           'zero_partition_is_constant, regenerated from Partition::new; at most encMaxPartitions of them) costs at most 8 + wasted + 4 warm-up samples + 646 bits, so the subframe written for a '
           'constant channel is bounded independently of the block length n, for every LPC candidate and depth; header_bits_le: a frame header is at most 15 bytes + CRC-8; frame_bytes_bound composes them.',
-    note='That the FIXED candidate of a constant block HAS an all-zero residual (order >= 1 differences of equal samples) and which partition order min_by_key keeps are not modelled: the driver checks on every '
-         'generated constant block that each written subframe is CONSTANT or FIXED/LPC over zero-width partitions only, and the oracle measures the tighter 12 bytes per channel.',
+    note='constant_block_fixed_zero (Props/C19b.lean, over Model/FixedPick.lean = the accumulation loop and min_by_key of encode_fixed_subframe): a block of n >= 2 equal non-zero samples is written by '
+         'encode_fixed_subframe as FIXED order 1 with all-zero residuals; the driver compares order and residuals of every mono FIXED subframe the encoder writes with fixedPick. Which partition order '
+         'min_by_key keeps in write_residuals is not modelled: the driver checks on every generated constant block that each written subframe is CONSTANT or FIXED/LPC over zero-width partitions only, '
+         'and the oracle measures the tighter 12 bytes per channel.',
     trusted_base=COMMON_TRUST,
     assumptions=['the recorded candidate size equals the bits later played back (BitRecorder is trusted)'],
 )
@@ -1639,9 +1642,10 @@ PROPS['C09'] = dict(
           'written_points_truthful: every defined point finalize can write, under either interval filter, names a real frame (this discharges C06\'s TableTruthful for files '
           'written by the crate); points_sorted; finalize_preserves_metadata_len: in all three layout cases SEEKTABLE + first PADDING occupy the same bytes after as before, so the '
           'rewrite cannot reach the first frame; frame_size_extrema: recorded min/max are bounds attained within (0, 2^24-1).',
-    note='STREAMINFO\'s MD5 = md5 of the little-endian PCM, truthful channel/rate/depth fields, untouched frames during the header rewrite and seek-table regeneration are decided '
-         'by the file-level L0 walk and harness observations on every case, not by a theorem. seektable_regen_eq follows from seekpoints_invariant because both sides apply '
-         'the same filter to the same triples; the frame walk that produces the triples is covered by the correspondence.',
+    note='STREAMINFO\'s MD5 = md5 of the little-endian PCM (the bytes fed to it are C08.byte_frontend_md5), truthful channel/rate/depth fields and untouched frames during the header rewrite are decided '
+         'by the file-level L0 walk and harness observations on every case, not by a theorem. Regeneration (Props/C09b.lean): reserved_slots_exact, regenerated_equals_written_declared and '
+         'regenerated_equals_written_padding show that the table finalize writes is generate_seektable of the frames written, in both layouts; that FrameIterator finds exactly those frames is C01/C16 '
+         'and is exhibited by the regen_ok observation of the harness.',
     trusted_base=COMMON_TRUST,
     assumptions=['frame byte sizes are taken from the finished file'],
 )
@@ -1691,7 +1695,7 @@ PROPS['C04'] = dict(
           'readSubframe_np_facts: wasted < depth and shift < 16, np_recorrelate for the wrapping reconstruction incl. the 33-bit path); stream_read_no_panic and file_loop_no_panic lift it to '
           'FlacStreamReader::read and to the readers\' frame loop (where total - current_sample can no longer underflow). The arithmetic facts come from kernels regenerated from decode.rs.',
     note='Termination holds of the model by construction (total functions); wall-clock termination and the real allocator\'s peak are exhibited by the correspondence run (per-case flush, '
-         'counting allocator), not proved. The structural parser (stream.rs) is covered under C17; metadata parsing under C12.',
+         'counting allocator), not proved. The structural parser (stream.rs) is compared with the decoder under C17 and driven on the malformed-frame classes in both profiles here (component structparse); metadata parsing under C12.',
     trusted_base=COMMON_TRUST,
     assumptions=['bitstream-io readers do not panic on short input (they return UnexpectedEof): trusted, exercised on every truncation point'],
 )
@@ -1746,9 +1750,10 @@ PROPS['C17'] = dict(
 )
 
 PROPS['C14'] = dict(
-    module='FlacModel.Props.C14b',
+    module='FlacModel.Props.C14c',
     theorems=['Flac.C14.prefix_decodes_complete_frames', 'Flac.decodeFrame_ext', 'Flac.decodeFrame_cut', 'Flac.local_readHeaderFields', 'Flac.local_decSubframes',
-              'Flac.C14.loc_of_decodes', 'Flac.C14.truncated_of_cut', 'Flac.C14.interrupted_decodes_complete_frames', 'Flac.C14.interrupted_file_decodes', 'Flac.file_head_roundtrip'],
+              'Flac.C14.loc_of_decodes', 'Flac.C14.truncated_of_cut', 'Flac.C14.interrupted_decodes_complete_frames', 'Flac.C14.interrupted_file_decodes', 'Flac.file_head_roundtrip',
+              'Flac.C14.placeholder_table_wf', 'Flac.C14.provisional_header_reads_back'],
     components=[CrashPrefix()],
     rule='60 (quick) / 3000 (thorough) encodes stopped before finalize (byte/sample/channel writer, declared and undeclared totals, every seek-table policy, with and without padding); '
          'the bytes that reached the stream are cut at EVERY byte (two thirds of the cases) or after every underlying write call, and each prefix is decoded by the sample or channel '
@@ -1759,7 +1764,7 @@ PROPS['C14'] = dict(
           'follows it) and decodeFrame_cut (a strict prefix of a decodable frame fails with end-of-data, in the header or in the body, never with another error or a value) are proved from the left-to-right structure '
           'of every parser (Local: extension, truncation and suffix properties, closed under sequencing; proved for the bit readers, the coded number, the header, Rice partitions, residuals, every subframe kind and the '
           'subframe decoder).',
-    note='The declared-total variant of the loop (remaining-sample bookkeeping) and the parseability of the provisional header (placeholder seek table, C11) are covered by the crash component, not by this theorem.',
+    note='The declared-total variant of the loop (remaining-sample bookkeeping) is C05c.declared_total_truncated; provisional_header_reads_back (Props/C14c.lean): STREAMINFO + an all-placeholder SEEKTABLE of any admissible size + optional PADDING is read back as written whatever follows (from C11.blocklist_roundtrip), so the interrupted file can be opened; the crash component exercises both on the real code.',
     trusted_base=COMMON_TRUST,
     assumptions=[],
 )
@@ -1879,7 +1884,8 @@ PROPS['C13'] = dict(
           'succeeded, the carried checksum is that of exactly the bytes that reached the stream; frame_ok_delivers / frames_ok_deliver: frames reported written are on the stream whole, each followed by the checksum of its own bytes; '
           'frame_ok_crc16_valid, header_ok_crc8_valid: with the crate\'s tables that means CRC remainder 0 (uses crc16_self/crc8_self); reads_checksum: the same for CrcReader over any segmentation of reads.',
     note='partial: BufWriter and write_all are a hand model of std (modelled, not verified); the harness does not see their internal call pattern, so the correspondence for C13 is the property oracle evaluated on the '
-         'real code at every failure index (success with a tripped fault must equal the fault-free result; no panics; read errors propagate), not a model-vs-implementation diff. Endless Interrupted is a hang in both.',
+         'real code at every failure index and under short-write sinks (success with a tripped fault must equal the fault-free result; no panics; read errors propagate), not a model-vs-implementation diff. '
+         'In the checksummed frame path (C13b) the pieces bitstream-io hands to write_all are a parameter. Endless Interrupted is a hang in both.',
     trusted_base=COMMON_TRUST,
     assumptions=['std::io::BufWriter / Write::write_all semantics as modelled in Model/Io.lean'],
 )
